@@ -408,6 +408,26 @@ func createRespHeaderUpdateFn(rules http.Header, replacer httpserver.Replacer, r
 }
 
 func mutateHeadersByRules(headers, rules http.Header, repl httpserver.Replacer, replacements headerReplacements) {
+	// The rules are kept in a map; they are applied in a fixed order (the
+	// deletions, then the rules that set a header, then the additions), not
+	// in the map's iteration order, which changes from request to request:
+	// `-Field` together with `+Field value` must always end with the value.
+	for ruleField := range rules {
+		if strings.HasPrefix(ruleField, "-") {
+			headers.Del(strings.TrimPrefix(ruleField, "-"))
+		}
+	}
+	for ruleField, ruleValues := range rules {
+		if strings.HasPrefix(ruleField, "+") || strings.HasPrefix(ruleField, "-") {
+			continue
+		}
+		if len(ruleValues) > 0 {
+			replacement := repl.Replace(ruleValues[len(ruleValues)-1])
+			if len(replacement) > 0 {
+				headers.Set(ruleField, replacement)
+			}
+		}
+	}
 	for ruleField, ruleValues := range rules {
 		if strings.HasPrefix(ruleField, "+") {
 			for _, ruleValue := range ruleValues {
@@ -415,13 +435,6 @@ func mutateHeadersByRules(headers, rules http.Header, repl httpserver.Replacer, 
 				if len(replacement) > 0 {
 					headers.Add(strings.TrimPrefix(ruleField, "+"), replacement)
 				}
-			}
-		} else if strings.HasPrefix(ruleField, "-") {
-			headers.Del(strings.TrimPrefix(ruleField, "-"))
-		} else if len(ruleValues) > 0 {
-			replacement := repl.Replace(ruleValues[len(ruleValues)-1])
-			if len(replacement) > 0 {
-				headers.Set(ruleField, replacement)
 			}
 		}
 	}
